@@ -279,6 +279,28 @@ def menu_case(name):
         m = magpy.magnet.TriangularMesh.from_mesh(mesh=m0.mesh, polarization=pol)
         m2 = magpy.magnet.TriangularMesh.from_mesh(mesh=m0.mesh[::-1, [0, 2, 1]], polarization=pol)
         return [(f, cmp([m], [cub], f)) for f in "BH"] + [("B-flipped-input", cmp([m2], [cub], "B"))]
+    if name.startswith("two-boxes=disconnected-mesh"):
+        # one TriangularMesh made of two disjoint boxes; variants: face list interleaved, some faces of either part flipped
+        b1 = magpy.magnet.Cuboid(dimension=DIM, polarization=pol)
+        b2 = magpy.magnet.Cuboid(dimension=(0.6, 0.5, 0.9), polarization=pol, position=(2.1, 0.3, -0.2))
+        c2 = np.array([(x, y, z) for x in (-0.3, 0.3) for y in (-0.25, 0.25) for z in (-0.45, 0.45)]) + (2.1, 0.3, -0.2)
+        verts = np.concatenate([corners, c2])
+        fA, fB = cube_faces.copy(), cube_faces.copy() + 8
+        variant = name.split(":")[1]
+        if variant == "flipB0":
+            fB[0] = fB[0][[0, 2, 1]]
+        elif variant == "flipA-all":
+            fA = fA[:, [0, 2, 1]]
+        elif variant == "flipB-all":
+            fB = fB[:, [0, 2, 1]]
+        elif variant == "interleaved-flips":
+            fA[[1, 5, 8]] = fA[[1, 5, 8]][:, [0, 2, 1]]
+            fB[[0, 3]] = fB[[0, 3]][:, [0, 2, 1]]
+        faces = np.concatenate([fA, fB])
+        if variant == "interleaved-flips":
+            faces = np.array([f for pair in zip(fA, fB) for f in pair])
+        m = magpy.magnet.TriangularMesh(vertices=verts, faces=faces, polarization=pol, check_disconnected="ignore")
+        return [(f, cmp([m], [b1, b2], f)) for f in "BH"]
     if name == "mesh-with-path":
         m = magpy.magnet.TriangularMesh.from_ConvexHull(points=corners, polarization=pol, position=[(0, 0, 0), (0.1, 0.2, 0.3)])
         c2 = magpy.magnet.Cuboid(dimension=DIM, polarization=pol, position=[(0, 0, 0), (0.1, 0.2, 0.3)])
@@ -326,7 +348,8 @@ def menu_case(name):
 
 
 MENU = ["cuboid=mesh", "cuboid=convexhull", "cuboid=5tets", "cuboid=6tets", "cuboid=triangles(H)", "to_TriangleCollection",
-        "from_triangles", "from_mesh", "mesh-with-path", "cylinder=segment(0,360)", "cylinder=segment(-180,180)",
+        "from_triangles", "from_mesh", "mesh-with-path", "two-boxes=disconnected-mesh:plain", "two-boxes=disconnected-mesh:flipB0",
+        "two-boxes=disconnected-mesh:flipA-all", "two-boxes=disconnected-mesh:flipB-all", "two-boxes=disconnected-mesh:interleaved-flips", "cylinder=segment(0,360)", "cylinder=segment(-180,180)",
         "cylinder=segment(90,450)", "cylinder=segment(-360,0)", "cylinder=segment(-500,-140)", "hollow=difference", "sectors:pos",
         "sectors:neg", "sectors:mixed", "sectors:far-neg", "sectors:far-pos", "sectors:straddle", "sphere=dipole(outside)", "ngon->circle"]
 
